@@ -314,6 +314,19 @@ def jobs(tier="quick"):
     return [Structural()]
 
 
+def canaries(tier="quick"):
+    """engine canary: the initialisation trace with a deliberately false postcondition (R0 = C_nb^T) must be refuted"""
+    t = initialize_trace()
+    inner = t.build
+
+    def b(**kw):
+        d = inner(**kw)
+        return {"R0": d["R0"], "Ct": d["C"].T}
+
+    return [_Trace("C11.canary.initialize-transposed", t.inputs, b, [Ob("R0 = C_nb^T [false]", "R0", "Ct")], decide=t.decide, budget_s=600, max_paths=64,
+                   definedness=False, sample_filter=t.sample_filter)]
+
+
 MIN_OBLIGATIONS = {"quick": 20, "thorough": 20}
 TRUSTED = ["A-GRAPH, A-REAL, own ring engine (see C01)", "structural matcher for if_else(error_code == 0, accepted, input)"]
 ASSUMPTIONS = ["modular: util.rk4, util.sqrt_covariance_predict, util.sqrt_correct by contract (C10); SO3Mrp.right_jacobian (C05), shadow_if_necessary (C07)",
